@@ -497,6 +497,9 @@ func (t *Table) updateVPNIdx(u *Update, newPath, oldPath *Path) {
 	if t.vpnIdx == nil {
 		return
 	}
+	// The path that just left the table (replaced or withdrawn) must leave the
+	// index whatever the path-id discipline of the other paths is.
+	t.vpnIdx.UnregisterPath(oldPath)
 	if newPath.RemoteID() != 0 {
 		// ADD-PATH: each (source, path-ID) pair is a distinct entry.
 		// oldPath is the previous path with the same source×pathID returned by
